@@ -6,7 +6,8 @@ VERIF = os.path.dirname(os.path.dirname(os.path.abspath(__file__)))
 
 BOUNDED = ('Contract-based deductive verification of the mechanically extracted real code (clang AST -> C on every run): per-function contracts '
            '(requires/ensures/assigns over the representation invariant wf and the abstract view) enforced by goto-instrument --dfcc and discharged by CBMC from an '
-           'arbitrary wf state with symbolic keys/values/clock/arguments. Unbounded in history length and data; bounded in capacity (quick: capacity<=2, thorough: capacity<=3), '
+           'arbitrary wf state with symbolic keys/values/clock/arguments. Unbounded in history length and data; bounded in capacity (quick: capacity<=3, heaviest units <=2, symmetry-reduced pre-state; thorough: capacity<=3 unreduced) '
+           'except where route U (cbmc --z3 over infinite node pools, symbolic capacity) discharges the same obligations for every capacity: lru, mru, rr, lfu, part of fifo; '
            'so the level is "other" (bounded stand-in), not "proof".')
 NOTE = ('Trusted: C contracts of std::list/unordered_map/map/multimap/vector/mutex in /verif/cstl (co-simulated against libstdc++ through the real library on every run); '
         'extraction fidelity (co-simulation); uint64_t instantiation stands for all key/value types (parametricity argued, not proved); no allocation failure/exceptions; '
@@ -37,16 +38,16 @@ def main():
             engine='cbmc-dfcc',
             level_claimed=dict(category=c.get('category', 'other'), text=c.get('text', BOUNDED) + ' Covered: ' + c['covered'], design_ref=c.get('design_ref', 'DESIGN.md section 8')),
             level_note=NOTE + ' ' + c.get('note', ''),
-            technique=c.get('technique', 'code contracts on extracted C, goto-instrument DFCC + CBMC (bounded capacity)')))
+            technique=c.get('technique', 'code contracts on extracted C: goto-instrument DFCC + CBMC (bounded capacity) and cbmc --z3 harnesses (unbounded capacity) for lru/mru/rr/lfu')))
     m = dict(version=1,
              setup_cmd='bin/check --setup',
              hooks=dict(guard='CAPPUCCINO_VERIF_HOOKS', enable='none needed: the technique adds no instrumentation to /repo (contracts live in /verif/contracts, keyed by function name)',
                         baseline_off_cmd='cmake -G Ninja -B /repo/_build -S /repo >/dev/null && cmake --build /repo/_build >/dev/null && ctest --test-dir /repo/_build -j8 --timeout 900',
                         source_commits=[], add_only=True),
              engines=[dict(name='cbmc-dfcc', path='bin/check', serves_properties=[c['property_id'] for c in checks],
-                           kind_free_text='clang JSON AST -> C extraction (extract/ast2c.py) + C contracts of std:: (cstl/) + per-function contracts (contracts/*.spec) enforced with goto-instrument --dfcc and discharged by cbmc 6.11')],
+                           kind_free_text='clang JSON AST -> C extraction (extract/ast2c.py) + C contracts of std:: (cstl/, cstl_u/) + per-function contracts (contracts/*.spec) enforced with goto-instrument --dfcc and discharged by cbmc 6.11; unbounded-capacity harnesses (contracts_u/) discharged by cbmc --z3; relational harnesses for range operations (lib/rel.py)')],
              checks=checks,
-             notes='See DESIGN.md. Fix commits in /repo are recorded in known_findings.json.',
+             notes='See DESIGN.md section 0 for what was built. Six fix: commits in /repo (rr back-pointer, lfuda age order, utlru ttl order, observers under the lock, utlru ttl under the lock, tlru pre-lock read) are recorded in known_findings.json; one known finding remains (F5: ut_map/ut_set with a zero TTL). Every quick check finishes within 900 s cold on 16 cores.',
              not_applicable=na)
     json.dump(m, open(os.path.join(VERIF, 'MANIFEST.json'), 'w'), indent=1)
     print('MANIFEST: %d claimed, %d not claimed' % (len(checks), len(na)))
